@@ -410,7 +410,7 @@ fn history_list(tier: Tier) -> Vec<Vec<HOp>> {
     }
     // window-crossing prefixes with every depth<=1 (quick) / <=2 (thorough) suffix
     let prefixes: Vec<Vec<HOp>> = match tier {
-        Tier::Quick => vec![vec![HOp::Run, HOp::Cursor(0), HOp::Fill(600)], vec![HOp::Run, HOp::Cursor(0), HOp::SelPair, HOp::Fill(10_001)], vec![HOp::Run, HOp::BigMsg(300)]],
+        Tier::Quick => vec![vec![HOp::Run, HOp::Cursor(0), HOp::Fill(600)], vec![HOp::Run, HOp::Cursor(0), HOp::SelPair, HOp::Fill(10_001)], vec![HOp::Run, HOp::BigMsg(300)], vec![HOp::Msg; 18]],
         Tier::Thorough => vec![
             vec![HOp::Run, HOp::Cursor(0), HOp::Fill(600)],
             vec![HOp::Run, HOp::Cursor(0), HOp::SelPair, HOp::Fill(10_001)],
@@ -422,7 +422,7 @@ fn history_list(tier: Tier) -> Vec<Vec<HOp>> {
     for p in prefixes {
         out.push(p.clone());
         let heavy = p.iter().any(|o| matches!(o, HOp::Fill(n) if *n > 1000) || matches!(o, HOp::BigMsg(k) if *k > 1000));
-        if heavy && tier == Tier::Quick {
+        if (heavy || p.len() >= 18) && tier == Tier::Quick {
             continue;
         }
         for a in &base {
